@@ -4,7 +4,7 @@ from __future__ import annotations
 import ast
 from typing import Dict, List, Set, Tuple
 
-from sa.pm import Program, FuncInfo, ClassInfo, dotted, norm, walk_no_nested, AnalysisError
+from sa.pm import Program, FuncInfo, ClassInfo, dotted, norm, walk_no_nested, AnalysisError, calls_in
 from sa.alias import AliasModel, Site, FRESH
 
 EXPLANATION = (
@@ -50,6 +50,7 @@ def check(prog: Program, rep):
     r1_r2(prog, rep, am, exported)
     r3(prog, rep)
     r4(prog, rep, am)
+    scheduler_reconciled(prog, rep)
 
 
 def mutable_default_params(f: FuncInfo) -> Dict[str, str]:
@@ -127,6 +128,60 @@ def r1_r2(prog, rep, am: AliasModel, exported):
                         rep.ok("C18.R2", k2, "stored default never mutated", "")
 
 
+# class-level attributes that mirror state the *process* holds anyway (one line of reason each; the premise is checked in the code)
+MIRRORS_OF_PROCESS_STATE = {
+    ("SolverWrapper.optimize", "SolverWrapper._highs_scheduler_threads"):
+        "HiGHS keeps one scheduler per process; the attribute records the thread count it was last started with and is read only to decide "
+        "whether the scheduler has to be reset before this model runs (which is what makes models independent of each other)",
+}
+
+
+def mirror_premise(prog, attr: str) -> bool:
+    """every read of the mirror attribute is inside the test that guards Highs.resetGlobalScheduler"""
+    reads_ok = True
+    found_reset = False
+    for f in prog.all_functions():
+        for node in ast.walk(f.node):
+            if isinstance(node, ast.If):
+                guards_reset = any(isinstance(c, ast.Call) and (dotted(c.func) or "").endswith("resetGlobalScheduler") for b in node.body for c in ast.walk(b))
+                if guards_reset and attr in norm(node.test):
+                    found_reset = True
+        reads = [n for n in ast.walk(f.node) if isinstance(n, ast.Attribute) and isinstance(n.ctx, ast.Load) and dotted(n) == attr]
+        for r in reads:
+            inside = any(isinstance(node, ast.If) and any(x is r for x in ast.walk(node.test)) and
+                         any(isinstance(c, ast.Call) and (dotted(c.func) or "").endswith("resetGlobalScheduler") for b in node.body for c in ast.walk(b))
+                         for node in ast.walk(f.node))
+            if not inside:
+                reads_ok = False
+    return reads_ok and found_reset
+
+
+def scheduler_reconciled(prog, rep):
+    """`threads` is a per-model solver option, but HiGHS sizes one scheduler per process at the first run and refuses to run an
+    instance that asks for another count (the wrapper then reports the model unsolved).  A wrapper that sets the option per
+    instance has to reset the scheduler when the count changes - otherwise a model's result depends on models solved before."""
+    rep.rule("C18.R5", "per-model solver options that HiGHS keeps per process (threads) are reconciled before each run", floor=1)
+    cls = prog.cls("SolverWrapper")
+    init = cls.methods["__init__"]
+    sets_threads = any(isinstance(c.func, ast.Attribute) and c.func.attr == "setOptionValue" and c.args and isinstance(c.args[0], ast.Constant) and
+                       c.args[0].value == "threads" for c in calls_in(init.node))
+    key = "SolverWrapper:threads-vs-global-scheduler"
+    if not sets_threads:
+        rep.ok("C18.R5", key, "the wrapper does not set `threads` per instance", init.loc())
+        return
+    opt = cls.methods["optimize"]
+    run = [c for c in calls_in(opt.node) if (dotted(c.func) or "") == "self.solver.optimize" or
+           any(dotted(a) == "self.solver.optimize" for a in list(c.args))]
+    resets = [node for node in ast.walk(opt.node) if isinstance(node, ast.If) and "threads" in norm(node.test) and
+              any(isinstance(c, ast.Call) and (dotted(c.func) or "").endswith("resetGlobalScheduler") for b in node.body for c in ast.walk(b))]
+    if resets and run and resets[0].lineno < min(c.lineno for c in run):
+        rep.ok("C18.R5", key, f"optimize() resets the global scheduler when the requested thread count differs: `{norm(resets[0].test)[:80]}`", opt.loc(resets[0]))
+    else:
+        rep.violation("C18.R5", key, "SolverWrapper sets the HiGHS option `threads` per instance but never reconciles the process-wide scheduler: a model asking for another "
+                      "thread count than an earlier model of the process refuses to run, the status stays kNotset and the model (or the whole search over k) comes back "
+                      "unsolved - its result depends on what was solved before", init.loc())
+
+
 def r3(prog, rep):
     rep.rule("C18.R3", "no runtime store into class attributes or module globals", floor=1)
     class_names = {c.name for c in prog.all_classes()}
@@ -153,7 +208,11 @@ def r3(prog, rep):
                     if last in class_names or owner in ("cls", "type(self)", "self.__class__") or \
                             (isinstance(base.value, ast.Call) and dotted(base.value.func) == "type"):
                         n += 1
-                        rep.violation("C18.R3", f"{f.qualname}:{norm(t)}", f"runtime store into class-level state `{norm(t)}`: shared by all models", f.loc(node))
+                        exc = MIRRORS_OF_PROCESS_STATE.get((f.qualname, norm(t)))
+                        if exc is not None and mirror_premise(prog, norm(t)):
+                            rep.ok("C18.R3", f"{f.qualname}:{norm(t)}", "tabled: " + exc, f.loc(node))
+                        else:
+                            rep.violation("C18.R3", f"{f.qualname}:{norm(t)}", f"runtime store into class-level state `{norm(t)}`: shared by all models", f.loc(node))
     # class-level *mutable* attributes that are mutated through an instance and never re-created per instance
     am = AliasModel(prog)
     for cls in prog.all_classes():
